@@ -80,6 +80,86 @@ func c05GetIDs(r *ring.Ring, key uint32) (out string) {
 	return strings.Join(ids, ",")
 }
 
+// c05Held is a sub-ring a caller obtained from the long-lived client and still holds, with the answers it
+// gave when it was obtained.
+type c05Held struct {
+	sub ring.ReadRing
+	ans []string
+}
+
+// c05TopologyOp treats every state as healthy and never extends the replica set: with the stream's
+// effectively infinite heartbeat timeout the answer to a Get depends on the topology only (tokens, owners,
+// zones), not on instance states or timestamps - which the client legitimately refreshes in place on CACHED
+// shuffle-shard sub-rings when only states/timestamps changed.
+var c05TopologyOp = ring.NewOp(allStates, nil)
+
+// c05SubAnswers queries a (sub-)ring on every token boundary of the tiny token space: `ans` are the canonical
+// topology answers (sorted id@addr / error class); `bad` counts lookups - topology, Write, Read, and one
+// through a shuffle shard taken from it - that reported inconsistent token information or panicked.
+func c05SubAnswers(sub ring.ReadRing) (ans []string, bad int) {
+	get := func(rr ring.ReadRing, key uint32, op ring.Operation) (res string) {
+		defer func() {
+			if rec := recover(); rec != nil {
+				res = "panic"
+			}
+			if res == "panic" || res == "inconsistent" {
+				bad++
+			}
+		}()
+		rs, err := rr.Get(key, op, nil, nil, nil)
+		if err != nil {
+			if errors.Is(err, ring.ErrInconsistentTokensInfo) {
+				return "inconsistent"
+			}
+			return "err"
+		}
+		ids := make([]string, 0, len(rs.Instances))
+		for _, i := range rs.Instances {
+			ids = append(ids, i.Id+"@"+i.Addr)
+		}
+		sort.Strings(ids)
+		return strings.Join(ids, ",")
+	}
+	for _, key := range []uint32{0, 1, 2, 3, 4, 5, 7, 8, 1<<32 - 1} {
+		ans = append(ans, get(sub, key, c05TopologyOp))
+		get(sub, key, ring.Write)
+		get(sub, key, ring.Read)
+	}
+	func() {
+		defer func() {
+			if rec := recover(); rec != nil {
+				bad++
+				ans = append(ans, "panic")
+			}
+		}()
+		ans = append(ans, get(sub.ShuffleShard("held", 1), 1, c05TopologyOp))
+	}()
+	return
+}
+
+// c05Acquire obtains the kinds of sub-ring a caller can get from a ring client (all of them share the
+// client's token->instance index); a call that returns the client itself (nothing to shard) is skipped.
+func c05Acquire(client *ring.Ring) []c05Held {
+	var subs []ring.ReadRing
+	func() {
+		defer func() { _ = recover() }() // lookups on the client itself are judged elsewhere (lk field)
+		subs = append(subs, client.GetSubringForOperationStates(ring.Read))
+		subs = append(subs, client.GetSubringForOperationStates(ring.Write))
+		subs = append(subs, client.ShuffleShard("tenant", 1))
+		subs = append(subs, client.ShuffleShard("other", 2))
+		subs = append(subs, client.ShuffleShardWithLookback("tenant", 1, time.Hour, time.Now()))
+	}()
+	var out []c05Held
+	for _, sub := range subs {
+		if rr, ok := sub.(*ring.Ring); ok && rr == client {
+			continue
+		}
+		ans, _ := c05SubAnswers(sub) // lookups on a freshly obtained sub-ring: its state is the client's, judged via lk
+		out = append(out, c05Held{sub: sub, ans: ans})
+	}
+	return out
+}
+
 func c05Desc(r *rng, nIDs int, wild bool) *ring.Desc {
 	d := ring.NewDesc()
 	for id := 0; id < nIDs; id++ {
@@ -106,6 +186,7 @@ func runC05(e *env) {
 		// snapshot shows up as a mutated snapshot or as a client whose lookups differ from a fresh one.
 		live := ring.NewDesc()
 		var client *ring.Ring
+		var held []c05Held // sub-rings obtained from the client before some update and kept by the caller
 		state := ring.NewDesc()
 		nIDs := 2 + r.intn(3)
 		steps := 2 + r.intn(6)
@@ -127,7 +208,50 @@ func runC05(e *env) {
 					ids = append(ids, id)
 				}
 				sort.Strings(ids) // never let Go's map order pick: every choice comes from the PRNG
-				switch r.intn(3) {
+				switch r.intn(4) {
+				case 3: // hand-over in ONE write: an instance holding tokens is dropped and (some of) its tokens
+					// are claimed by another instance, new or changed, in the same local CAS
+					var holders []string
+					for _, id := range ids {
+						if len(other.Ingesters[id].Tokens) > 0 {
+							holders = append(holders, id)
+						}
+					}
+					if len(holders) > 0 {
+						x := pick(r, holders)
+						toks := other.Ingesters[x].Tokens
+						xZone := other.Ingesters[x].Zone
+						all := r.chance(1, 2) // take over every token (the token set of the ring may then stay the same)
+						delete(other.Ingesters, x)
+						var cands []string
+						for k := 0; k < nIDs; k++ {
+							if id := "i" + strconv.Itoa(k); id != x {
+								cands = append(cands, id)
+							}
+						}
+						y := pick(r, cands)
+						i, ok := other.Ingesters[y]
+						if !ok {
+							zone := pick(r, []string{"z0", "z1"})
+							if all {
+								zone = xZone
+							}
+							i = ring.InstanceDesc{Id: y, Addr: "a" + y[1:], Zone: zone,
+								State: pick(r, []ring.InstanceState{ring.ACTIVE, ring.LEAVING, ring.PENDING, ring.JOINING})}
+						}
+						if prev, known := state.Ingesters[y]; known && prev.Timestamp >= clock {
+							clock = prev.Timestamp + 1 // the claimant's entry must be newer than what the replica holds
+						}
+						i.Timestamp = clock
+						nt := append([]uint32(nil), i.Tokens...)
+						for k, t := range toks {
+							if k == 0 || all || r.chance(2, 3) {
+								nt = append(nt, t)
+							}
+						}
+						i.Tokens = nt
+						other.Ingesters[y] = i
+					}
 				case 0: // remove one
 					if len(ids) > 0 {
 						delete(other.Ingesters, pick(r, ids))
@@ -161,6 +285,13 @@ func runC05(e *env) {
 			} else {
 				client.VerifUpdateRingState(snapBefore)
 			}
+			if client != nil {
+				// callers obtain sub-rings from the client's CURRENT state and keep them across later updates
+				held = append(held, c05Acquire(client)...)
+				if len(held) > 10 {
+					held = held[len(held)-10:]
+				}
+			}
 			if _, err := live.VerifMergeWithTime(cloneDesc(other), cas, time.Unix(clock, 0)); err != nil {
 				panic(err)
 			}
@@ -182,12 +313,24 @@ func runC05(e *env) {
 			if encDesc(live) != encDesc(st) {
 				alias += 100 // in-place merge and copy merge must agree
 			}
+			// every held sub-ring keeps answering from its own snapshot: same answers as when it was obtained,
+			// never inconsistent token information, never a panic
+			heldInc, heldChg := 0, 0
+			for _, h := range held {
+				now, bad := c05SubAnswers(h.sub)
+				heldInc += bad
+				for k := range now {
+					if k >= len(h.ans) || now[k] != h.ans[k] {
+						heldChg++
+					}
+				}
+			}
 			inc, pn := c05Lookups(st)
 			c := "0"
 			if cas {
 				c = "1"
 			}
-			e.emit("C05.step", c, strconv.FormatInt(clock, 10), encDesc(state), encDesc(other), encDesc(st), encChange(ch), strconv.Itoa(len(results)), fmt.Sprintf("inc=%d,panic=%d", inc, pn), fmt.Sprintf("alias=%d,snapmut=%d", alias, snapMut))
+			e.emit("C05.step", c, strconv.FormatInt(clock, 10), encDesc(state), encDesc(other), encDesc(st), encChange(ch), strconv.Itoa(len(results)), fmt.Sprintf("inc=%d,panic=%d", inc, pn), fmt.Sprintf("alias=%d,snapmut=%d,heldinc=%d,heldchg=%d", alias, snapMut, heldInc, heldChg))
 			state = st
 		}
 	}
